@@ -97,6 +97,65 @@ class Ctx:
             ", ERROR " + summ["error"] if summ["error"] else ""))
         return summ
 
+    def trace_validate(self, module, cfg, trace_path, name=None, max_rejections=4, timeout=900, sigfn=None):
+        """Validate a concatenated ndjson trace (runs start with an "ev":"Start" line) against
+        spec/<module>.tla. On a rejection the offending run is reported as a violation and the
+        remainder of the trace (from the next run) is validated again, so one defect does not hide
+        the rest. Returns (runs_total, runs_accepted, events)."""
+        name = name or module
+        lines = open(trace_path).read().splitlines()
+        starts = [i for i, l in enumerate(lines) if '"ev":"Start"' in l]
+        runs_total = len(starts)
+        events = len(lines)
+        rejected = 0
+        offset = 0          # index into lines where the current remainder begins
+        attempt = 0
+        while offset < len(lines):
+            attempt += 1
+            part = os.path.join(self.work, "%s.part%d.ndjson" % (name, attempt))
+            with open(part, "w") as f:
+                f.write("\n".join(lines[offset:]) + "\n")
+            s = self.tlc(module, cfg, name="%s.tv%d" % (name, attempt), trace_mode=True, env={"TRACE": part},
+                         timeout=timeout, coverage=False)
+            um = None
+            inv = None
+            with open(s["out"], errors="replace") as f:
+                for line in f:
+                    m = re.match(r'^<<"UNMATCHED", (\d+), "(.*)">>$', line.rstrip("\n"))
+                    if m:
+                        um = (int(m.group(1)), m.group(2).replace('\\"', '"').replace("\\\\", "\\"))
+                    if line.startswith("Error: Invariant "):
+                        inv = line.strip()
+            if um is None and inv is None:
+                if s["error"]:
+                    raise ToolError("trace validation of %s failed without a diagnosis: %s (see %s)" % (name, s["error"], s["out"]))
+                break
+            rejected += 1
+            if um is not None:
+                k = offset + um[0] - 1            # absolute index of the unmatched line
+                why = "no behaviour of %s explains this event" % module
+            else:
+                # invariant violated on a trace state: the furthest line is not printed; report the run
+                # containing the last line TLC reached (depth of the search = lines explained + 1)
+                k = offset + max(0, (s["depth"] or 1) - 2)
+                why = "an invariant of %s is false in a state of the recorded execution: %s" % (module, inv)
+            run_start = max([i for i in starts if i <= k] or [0])
+            nxt = [i for i in starts if i > k]
+            run_end = nxt[0] if nxt else len(lines)
+            run = lines[run_start:run_end]
+            evname = json.loads(lines[k]).get("ev", "?") if k < len(lines) else "?"
+            prev = json.loads(lines[k - 1]).get("ev", "?") if k - 1 >= run_start else "-"
+            sig = sigfn(lines, run_start, k) if sigfn else "%s:reject:%s:after:%s" % (name.lower(), evname, prev)
+            if um is None:
+                sig = "%s:invariant" % name.lower()
+            self.violations.append({"sig": sig, "what": "%s (line %d of the run: %s)" % (why, k - run_start + 1, lines[k] if k < len(lines) else ""),
+                                    "detail": {"kind": "trace", "module": module, "unmatched_line": k - run_start + 1, "run": run[:400]}, "job": name})
+            if rejected >= max_rejections or not nxt:
+                break
+            offset = nxt[0]
+        self.log("trace validation %s: %d runs, %d events, %d rejected" % (name, runs_total, events, rejected))
+        return runs_total, runs_total - rejected, events
+
     def spec_must_hold(self, summ):
         """The specification itself violating one of its invariants is a tool-level failure:
         the spec states the intended behaviour and must satisfy the listed properties."""
